@@ -19,6 +19,9 @@ Proof. intros H Hg. apply H; auto. Qed.
 Lemma allch_same_conns (P : N -> N -> channel -> Prop) s s' : conns s' = conns s -> allch P s -> allch P s'.
 Proof. unfold allch. intros E H c h ch Hg. apply H. rewrite <- (get_chan_same_conns s s' c h E). exact Hg. Qed.
 
+Lemma allch_set_stage (P : N -> N -> channel -> Prop) s c st : allch P s -> allch P (set_stage s c st).
+Proof. unfold allch. intros H c' h' ch Hg. rewrite get_chan_set_stage in Hg. apply H. exact Hg. Qed.
+
 Lemma allch_set_chan (P : N -> N -> channel -> Prop) s c h ch : P c h ch -> allch P s -> allch P (set_chan s c h ch).
 Proof.
   intros Hp H c' h' ch' Hg. rewrite get_chan_set_chan in Hg.
@@ -477,6 +480,9 @@ Proof.
   - (* MTxSelect *) destruct (fx_not_impl fx); exact H.
   - (* MConnClose *) exact H.
   - (* MConnCloseOk *) exact H.
+  - (* MStartOk *) destruct good; [cbn [fst]; apply allch_set_stage; exact H|exact H].
+  - (* MTuneOk *) destruct within; [cbn [fst]; apply allch_set_stage; exact H|exact H].
+  - (* MConnOpen *) destruct vhost_ok; [cbn [fst]; apply allch_set_stage; exact H|exact H].
 Qed.
 
 Lemma CI_delete_fold b l : forall s evs, CI s ->
@@ -529,6 +535,14 @@ Proof.
   intros H c' h' ch' Hg. apply get_chan_ensure in Hg. destruct Hg as [Hg|Hg]; [apply H; auto|subst; apply chinv_channel0].
 Qed.
 
+Lemma CI_apply_err_st cfg fx opened s c h r : CI (fst (fst r)) -> CI (fst (apply_err_st cfg fx opened s c h r)).
+Proof.
+  intros H. unfold apply_err_st. destruct opened; [apply CI_apply_err; auto|].
+  destruct (snd r) as [[| ]|]; try (apply CI_apply_err; auto).
+  pose proof (CI_apply_err s c h r H) as H1. destruct (apply_err s c h r) as [s1 e1]. cbn [fst] in H1.
+  pose proof (CI_conn_close cfg fx s1 c H1) as H2. destruct (conn_close cfg fx s1 c) as [s2 e2]. exact H2.
+Qed.
+
 Theorem CI_step cfg fx s l : CI s -> CI (fst (step cfg fx s l)).
 Proof.
   intros H. destruct l; cbn [step].
@@ -539,34 +553,37 @@ Proof.
     + cbn in Hg. destruct (h' =? 0); inversion Hg; subst. apply chinv_channel0.
     + apply H. unfold get_chan, get_conn. exact Hg.
   - (* LMethod *)
-    destruct (get_conn s c); [|exact H].
+    destruct (get_conn s c) as [cn0|]; [|exact H].
+    destruct (negb _ && negb _)%bool; [apply CI_conn_close; auto|].
     assert (H0 : CI (ensure_chan s c h)) by (apply CI_ensure_chan; auto).
     destruct m.
     all: try (repeat match goal with |- context [if ?b then _ else _] => destruct b end;
-              first [ exact H0 | apply CI_apply_err; first [ apply CI_handle_method; auto | exact H0 ] ]).
+              first [ exact H0 | apply CI_apply_err; first [ apply CI_handle_method; auto | exact H0 ] | apply CI_apply_err_st; auto; first [ apply CI_handle_method; auto | exact H0 ] ]).
     + destruct (fx_stage fx && negb (h =? 0)); [apply CI_apply_err; exact H0|].
       pose proof (CI_conn_close cfg fx _ c H0) as Hc.
       destruct (conn_close cfg fx (ensure_chan s c h) c) as [s1 e1]. exact Hc.
     + destruct (fx_stage fx && negb (h =? 0)); [apply CI_apply_err; exact H0|].
       apply CI_conn_close; auto.
   - (* LHeader *)
-    destruct (get_conn s c); [|exact H].
+    destruct (get_conn s c) as [cn0|]; [|exact H].
+    destruct (negb _ && negb _)%bool; [apply CI_conn_close; auto|].
     assert (H0 : CI (ensure_chan s c h)) by (apply CI_ensure_chan; auto).
     destruct (get_chan _ c h) as [ch|]; [|exact H0].
     destruct (_ && _)%bool; [exact H0|].
-    destruct (ch_cur ch) as [u|]; [|apply CI_apply_err; exact H0].
+    destruct (ch_cur ch) as [u|]; [|apply CI_apply_err_st; auto].
     destruct (get_msg _ u) as [m|]; [|exact H0].
-    destruct (m_has_header m); [apply CI_apply_err; exact H0|].
+    destruct (m_has_header m); [apply CI_apply_err_st; auto|].
     destruct (_ && _)%bool; [apply CI_finish_publish|]; same_conns; auto.
   - (* LBody *)
-    destruct (get_conn s c); [|exact H].
+    destruct (get_conn s c) as [cn0|]; [|exact H].
+    destruct (negb _ && negb _)%bool; [apply CI_conn_close; auto|].
     assert (H0 : CI (ensure_chan s c h)) by (apply CI_ensure_chan; auto).
     destruct (get_chan _ c h) as [ch|]; [|exact H0].
     destruct (_ && _)%bool; [exact H0|].
-    destruct (ch_cur ch) as [u|]; [|apply CI_apply_err; exact H0].
+    destruct (ch_cur ch) as [u|]; [|apply CI_apply_err_st; auto].
     destruct (get_msg _ u) as [m|]; [|exact H0].
-    destruct (negb (m_has_header m)); [apply CI_apply_err; exact H0|].
-    destruct (_ <? _); [apply CI_apply_err; cbn [fst]; apply allch_upd_chan; auto|].
+    destruct (negb (m_has_header m)); [apply CI_apply_err_st; auto|].
+    destruct (_ <? _); [apply CI_apply_err_st; auto; cbn [fst]; apply allch_upd_chan; auto|].
     destruct (_ <? _); [|apply CI_finish_publish]; same_conns; auto.
   - (* LConsumerTurn *) apply CI_consumer_turn; auto.
   - (* LQueueLoop *) cbn [fst]. apply CI_queue_loop_turn; auto.
@@ -590,6 +607,12 @@ Proof.
   - (* LSocketLoss *)
     pose proof (CI_conn_close cfg fx s c H) as Hc.
     destruct (conn_close cfg fx s c) as [s1 e1]. exact Hc.
+  - (* LAccept *)
+    destruct (get_conn s c) eqn:Ec; cbn [fst]; auto.
+    intros c' h' ch' Hg. unfold get_chan, get_conn in Hg. cbn in Hg. rewrite (alookup_aset N.eqb Neqb_spec) in Hg.
+    destruct (c' =? c) eqn:E1.
+    + cbn in Hg. destruct (h' =? 0); inversion Hg; subst. apply chinv_channel0.
+    + apply H. unfold get_chan, get_conn. exact Hg.
 Qed.
 
 Lemma CI_init cfg : CI (init cfg).
